@@ -98,6 +98,7 @@ def cases(tier):
     for n in _frames(tier):
         yield Case("tps:n=%d" % n, {"kind": "tps", "n": n}, n >= 4)
     yield Case("tpsaxis", {"kind": "tpsaxis"})
+    yield Case("storage", {"kind": "storage"})
 
 
 # ----------------------------------------------------------------------------- helpers
@@ -151,6 +152,8 @@ def _dense_images(a, b):
 
 
 def evaluate(p):
+    if p["kind"] == "storage":
+        return _storage(p)
     return {"sf": _sf, "lag0": _lag0, "sfscreen": _sfscreen, "sfscreen_lin": _sfscreen_lin,
             "tps": _tps, "tpsaxis": _tpsaxis}[p["kind"]](p)
 
@@ -521,3 +524,26 @@ LEVEL_TEXT = ("Structure function: every shape (a,b) with a,b in 2..6 (quick) / 
 LEVEL_NOTE = ("Trusted: the loop definitions in mc/refmodels/estimators.py and the textbook structure function in "
               "mc/refmodels/vk_closed_forms.py. Not covered: shapes beyond the bound, lags without overlap, the std-error "
               "output of calc_slope_temporalps, plotting/fitting helpers; the screens clause is a bounded refinement ladder.")
+
+
+def _storage(p):
+    """the estimators are functions of the VALUES: the same numbers in another memory layout or dtype
+    (Fortran order, strided / transposed views, read-only, float32, integer types) give the same answer"""
+    from mc import variants
+    from aotools.turbulence import temporal_ps as tp
+    sc = _sc()
+    o = Out()
+    i, j = numpy.indices((8, 6))
+    x = ((3 * i * i + 5 * j + i * j) % 17).astype(float)
+    for nb, st in ((3, 1), (2, 2), (None, None)):
+        n = variants.check_storage(o, "sf_independent_of_storage",
+                                   lambda a: sc.calculate_structure_function(a, nb, st), x, 1e-12, sub="nb=%s:step=%s" % (nb, st),
+                                   kinds=("float32", "int64", "int32"))     # phases and slopes are signed quantities
+        o.stat("lib_calls", n)
+    f, k = numpy.indices((8, 3))
+    sl = ((7 * f + 3 * k * k + f * k) % 11).astype(float)
+    for name, data in (("2d", sl), ("3d", numpy.array([sl, sl[::-1] + 1]))):
+        n = variants.check_storage(o, "tps_independent_of_storage", lambda a: tp.calc_slope_temporalps(a)[0], data, 1e-12,
+                                   sub=name, kinds=("float32", "int64", "int32"))
+        o.stat("lib_calls", n)
+    return o
